@@ -47,6 +47,11 @@ def run_monitored(case, schedule=(), want=("lifecycle", "ack", "history", "surfa
             else:
                 w.add_engine(i)
         H.install_workers(w, case["definition"], case.get("oracle") or {}, dup_replies=dup_replies)
+        for nm_, d_ in (case.get("extra_machines") or {}).items():      # machines that the case's machine launches as child executions
+            H.install_workers(w, d_, case.get("oracle") or {}, dup_replies=dup_replies)
+            st, resp = w.create_state_machine(nm_, d_)
+            if st != 200:
+                raise RuntimeError("CreateStateMachine refused the child machine %s: %r" % (nm_, resp))
         extra_create = {}
         if logging:
             extra_create["loggingConfiguration"] = {"level": logging, "includeExecutionData": bool(include_data), "destinations": [{"cloudWatchLogsLogGroup": {"logGroupArn": "arn:aws:logs:local:0123456789:log-group:x"}}]}
